@@ -41,9 +41,26 @@ def rule_accessors(ctx):
         t = A.fn_text(fn)
         tt = texts(fn)
         need(ctx, f"{kind_}:loop", "Iterator::zip(variant_data.variant_states.iter(),variant_data.infos)" in t and "let variant_data=state.enabled_variant_data()" in t, w, f"{kind_}: methods are no longer generated per enabled variant with its own info")
-        need(ctx, f"{kind_}:same-variant", "let variant_ident=&variant.ident" in t and "get_field_info(&variant.fields)" in t and "#enum_name::#variant_ident#data_pattern" in tt, w, f"{kind_}: pattern is no longer `Enum::X <binders>` of the iterated variant")
+        # alias-insensitive: `let` aliases (variant, variant_ident, a hoisted snake-case name ..) are inlined
+        ti = A.fn_text(fn, inline=True)
+        V = "variant_state.variant.unwrap()"
+        als = A.aliases(fn)
+        vi = next((n for n, (e, _) in als.items() if A.inline_text(A.render(e), als).lstrip("&") == f"{V}.ident"), None)
+        need(
+            ctx,
+            f"{kind_}:same-variant",
+            f"get_field_info(&{V}.fields)" in ti and (f"#enum_name::#{vi}#data_pattern" in tt if vi else False),
+            w,
+            f"{kind_}: pattern is no longer `Enum::X <binders>` of the iterated variant (identifier and fields of the same `variant_state.variant`)",
+        )
         for nm, pre in (("fn_name", ""), ("ref_fn_name", "_ref"), ("mut_fn_name", "_mut")):
-            need(ctx, f"{kind_}:{nm}", f'let {nm}=format_ident!("{kind_}_{{ident}}{pre}",ident=variant.ident.unraw().to_string().to_case(Case::Snake),span=variant.ident.span(),)' in t.replace(" ", "").replace("let" + nm, "let " + nm), w, f"{kind_}: `{nm}` is not `{kind_}_<snake_case(variant)>{pre}`")
+            need(
+                ctx,
+                f"{kind_}:{nm}",
+                re.search(r'let %s=format_ident!\("%s_\{ident\}%s",ident=%s\.ident\.unraw\(\)\.to_string\(\)\.to_case\(Case::Snake\),span=%s\.ident\.span\(\),?\)' % (nm, kind_, pre, re.escape(V), re.escape(V)), ti.replace(" ", "").replace("let" + nm, "let " + nm)) is not None,
+                w,
+                f"{kind_}: `{nm}` is not `{kind_}_<snake_case(variant)>{pre}`",
+            )
         forms = [("self", "", "#failed_block"), ("&self", "&", "#failed_block_ref"), ("&mutself", "&mut", "#failed_block_mut")]
         for recv, r, fb in forms:
             if kind_ == "unwrap":
@@ -282,13 +299,25 @@ def rule_from_str(ctx):
     rel = "impl/src/from_str.rs"
     ex = A.get_fn(ctx.files, rel, "expand")
     et = A.fn_text(ex)
+    from . import reject as RJ
+
+    def reach(callee):
+        out = []
+        for c, ps in A.find(ex.block, "Expr::Call"):
+            if A.kind(c["func"]) == "Expr::Path" and A.path_str(c["func"]).split("::")[-1] == callee:
+                out.append(A.alpha(" && ".join(RJ.guard_chain(ex, c, ps, RJ._lets(ex))), numbered=False))
+        return out
+
+    re_enum, re_struct = reach("enum_from"), reach("struct_from")
     need(
         ctx,
         "from_str:dispatch",
-        A.wsearch(et, "if state.derive_type==DeriveType::Enum{Ok(enum_from(input,state,trait_name))}else {Ok(struct_from(&state,trait_name))}") is not None
-        or A.wsearch(et, "if state.derive_type!=DeriveType::Enum{Ok(struct_from(&state,trait_name))}else {Ok(enum_from(input,state,trait_name))}") is not None,
+        len(re_enum) == 1
+        and len(re_struct) == 1
+        and re.fullmatch(r"if (.+)\.derive_type==DeriveType::Enum", re_enum[0]) is not None
+        and re_struct[0] == "if !(" + re_enum[0][3:] + ")",
         ctx.where(ex.file, ex.node),
-        "`expand` no longer sends exactly the enums (`state.derive_type == DeriveType::Enum`) to `enum_from` and everything else to `struct_from`: deciding by another observation (e.g. 'has variants') sends an enum without variants to the struct path, which panics instead of generating the impl that rejects every string",
+        f"`expand` reaches `enum_from` under {re_enum} and `struct_from` under {re_struct} instead of exactly `state.derive_type == DeriveType::Enum` / its negation: deciding by another observation (e.g. 'has variants') sends an enum without variants to the struct path, which panics instead of generating the impl that rejects every string",
         {"body": et[:300]},
     )
     fn = A.get_fn(ctx.files, rel, "enum_from")
@@ -318,10 +347,29 @@ def rule_from_str(ctx):
             loop = fl
     if loop is None:
         raise A.AnchorLost(f"{rel}::enum_from", "loop over the case-insensitive groups")
-    lb = [A.render_stmt(s) for s in loop["body"]["stmts"]]
-    ok = len(lb) == 1 and A.wfull(
-        lb[0],
-        "if variants.len()==1{let variant=&variants[0];cases.push(quote!(#canonical=>#input_type::#variant,))}else {for variant in variants{let variant_str=variant.unraw().to_string();cases.push(quote!(#canonical if(src==#variant_str)=>#input_type::#variant,))}}",
+    # semantic form: where are the unguarded / the guarded arm templates reached inside the per-group loop?
+    from . import reject as RJ
+
+    arms_found = {"plain": [], "guarded": []}
+    for mac, ps in A.find(loop["body"], ("Expr::Macro", "Stmt::Macro")):
+        if A.path_last(mac["mac"]["path"]) != "quote":
+            continue
+        txt = T.ir_text(T.to_ir(mac["mac"]["tokens"])).replace(" ", "")
+        chain = A.alpha(" && ".join(RJ.guard_chain(fn, mac, (loop["body"],) + tuple(ps), {})), numbered=False)
+        iterated = any((A.kind(p) == "Expr::ForLoop" or (A.kind(p) == "Expr::MethodCall" and p["method"]["sym"] in ("map", "for_each", "flat_map"))) for p in ps)
+        if A.TTxt(txt).same("#canonical=>#input_type::#variant,"):
+            arms_found["plain"].append((chain, iterated))
+        elif A.TTxt(txt).same("#canonicalif(src==#variant_str)=>#input_type::#variant,"):
+            arms_found["guarded"].append((chain, iterated))
+    ONE = ("if $.len()==1", "$.as_slice() ~ [$]", "&$[..] ~ [$]", "$ ~ [$]")
+    NOT_ONE = ("if !($.len()==1)", "$.as_slice() !~ [$]", "&$[..] !~ [$]", "$ !~ [$]", "if $.len()>1")
+    ok = (
+        len(arms_found["plain"]) == 1
+        and len(arms_found["guarded"]) == 1
+        and arms_found["plain"][0][0] in ONE
+        and arms_found["guarded"][0][0] in NOT_ONE
+        and arms_found["guarded"][0][1]
+        and (A.wsearch(t, "let variant_str=variant.unraw().to_string()") is not None)
     )
     need(
         ctx,
@@ -330,7 +378,7 @@ def rule_from_str(ctx):
         w,
         "the arms of a case-colliding group are no longer *all* guarded by `if (src == \"<exact name>\")` (or a unique group is no longer matched case-insensitively): "
         "with `enum E { on, On, ON }` an unguarded member swallows the inputs of its siblings",
-        {"loop": lb},
+        {"arms": arms_found},
     )
     need(ctx, "fromstr:fallthrough", "_=>returnderive_more::core::result::Result::Err(derive_more::FromStrError::new(#input_type_name),)," in impl, w, "unknown strings no longer return `Err(FromStrError::new(<type name>))`")
     need(ctx, "fromstr:fieldless", "if !variant.fields.is_empty(){panic!(" in t, w, "variants with fields are no longer rejected")
